@@ -6,7 +6,9 @@ RANGES = {"int8": (-2**7, 2**7 - 1), "int16": (-2**15, 2**15 - 1), "int32": (-2*
           "int": (-2**63, 2**63 - 1), "byte": (0, 255), "uint8": (0, 255), "uint16": (0, 2**16 - 1), "uint32": (0, 2**32 - 1),
           "uint64": (0, 2**64 - 1), "uint": (0, 2**64 - 1)}
 BOUNDARY = [0, 1, 23, 24, 127, 128, 255, 256, 32767, 32768, 65535, 65536, 2**31 - 1, 2**31, 2**32 - 1, 2**32, 2**53, 2**63 - 1, 2**63, 2**64 - 1,
-            -1, -24, -25, -128, -129, -200, -256, -257, -32768, -32769, -65536, -65537, -2**31, -2**31 - 1, -2**32, -2**32 - 1, -2**63, 42, -500, 12345678]
+            -1, -24, -25, -128, -129, -200, -256, -257, -32768, -32769, -65536, -65537, -2**31, -2**31 - 1, -2**32, -2**32 - 1, -2**63, 42, -500, 12345678,
+            # numbers whose (first) payload byte is a structural marker of a binary format: 'N' 'Z' '[' ']' '{' '}' '#' '$', CBOR break
+            78, 90, 91, 93, 123, 125, 35, 36, 0x4E20, 0x5D00, 0x4E000000, 0x7B000001, 0x4E << 56, 0x7D << 56, -0x4E, 0xFF00, 0xFF000000]
 
 
 def ints_for(ty):
@@ -20,7 +22,7 @@ def canon(v):
     return [0] + list(v.to_bytes(8, "big"))
 
 
-F64 = [0.0, -0.0, 1.0, 3.14, 1e21, 1e-7, 1.7976931348623157e308, 2.2250738585072014e-308, 5e-324, 0.1, 100.0, 1e20, 123456789.0,
+F64 = [2.0 ** 225, 0.0, -0.0, 1.0, 3.14, 1e21, 1e-7, 1.7976931348623157e308, 2.2250738585072014e-308, 5e-324, 0.1, 100.0, 1e20, 123456789.0,
        float(2**53), float(2**63), float(2**64), -float(2**63), 1.5e300, 0.30000000000000004, -3.14, 7e9, 1e23, 8.41e21, 5e-7, 1e6, 123456.7,
        float("nan"), float("inf"), float("-inf")]
 F64_BITS = [list(struct.pack(">d", f)) for f in F64] + [[0x7f, 0xf0, 0, 0, 0, 0, 0, 1], [0xff, 0xf8, 0, 0, 0, 0, 0, 0]]   # signalling / negative NaN
@@ -33,7 +35,7 @@ def f32(x):
         return list(struct.pack(">f", math.copysign(float("inf"), x)))
 
 
-F32_BITS = [f32(x) for x in (0.0, -0.0, 1.0, 3.14, 16777216.0, 1e-7, 3.4028234663852886e38, 1e-45, 0.1, 1e10, float(2**31), -2.5, 7e9,
+F32_BITS = [f32(x) for x in (1e9, 0.0, -0.0, 1.0, 3.14, 16777216.0, 1e-7, 3.4028234663852886e38, 1e-45, 0.1, 1e10, float(2**31), -2.5, 7e9,
                              float("nan"), float("inf"), float("-inf"))] + [[0x7f, 0x80, 0, 1]]
 STRS = [b"", b"a", b"hello", b'"\\/\b\f\n\r\t', b"<>&", "  ".encode(), "é".encode(), "€".encode(), "😀".encode(),
         b"\xff", b"\xc3", b"a\xe2\x82", b"\xed\xa0\x80", b"a\xffb\xfe", bytes(range(256)), b"x" * 23, b"x" * 24, b"y" * 255, b"y" * 256,
@@ -163,6 +165,22 @@ def length_sweep(quick):
         if n <= 300:
             out.append([ev("objS", "objS", (), n, "any")] + [x for j in range(n) for x in (ev("key", "key", list(b"k%d" % j)), ev("bool", "bool", [j % 2]))] + [ev("objE", "objE")])
             out.append([ev("xarr", "str", (), 0, "", [dict(key=[], v=list(b"s%d" % j), i=[], s=[]) for j in range(n)])])
+    # every family of typed array / typed map with element counts around the one-byte count classes
+    fams = [("int8", lambda j: canon(j % 100)), ("int16", lambda j: canon(300 + j)), ("int32", lambda j: canon(70000 + j)), ("int64", lambda j: canon(2 ** 33 + j)),
+            ("int", lambda j: canon(-j)), ("uint8", lambda j: canon(j % 250)), ("uint16", lambda j: canon(40000 + j)), ("uint32", lambda j: canon(2 ** 31 + j)),
+            ("uint64", lambda j: canon(2 ** 40 + j)), ("uint", lambda j: canon(j)), ("f32", lambda j: f32(j + 0.5)), ("f64", lambda j: list(struct.pack(">d", j + 0.25))),
+            ("bool", lambda j: [j % 2]), ("str", lambda j: list(b"s%d" % j))]
+    for n in ((127, 128, 255, 256) if quick else (127, 128, 129, 255, 256, 257)):
+        for fam, mk in fams:
+            out.append([ev("arrS", "arrS", (), -1, "any"), ev("xarr", fam, (), 0, "", [dict(key=[], v=mk(j), i=[], s=[]) for j in range(n)]), ev("nil", "nil"), ev("arrE", "arrE")])
+            if n in (128, 255):
+                out.append([ev("xobj", fam, (), 0, "", [dict(key=list(b"k%d" % j), v=mk(j), i=[], s=[]) for j in range(n)])])
+    # nesting beyond the pre-allocated stacks of the encoders (32 entries), with announced lengths
+    for d in ((31, 32, 33, 34) if quick else (31, 32, 33, 34, 63, 64, 65, 66)):
+        out.append([ev("arrS", "arrS", (), 1, "any")] * d + [ev("nil", "nil")] + [ev("arrE", "arrE")] * d)
+        out.append([x for _ in range(d) for x in (ev("arrS", "arrS", (), 2, "any"), ev("int", "int8", canon(1)))] + [ev("bool", "bool", [1])] + [ev("arrE", "arrE")] * d)
+        out.append([x for j in range(d) for x in (ev("objS", "objS", (), 2, "any"), ev("key", "key", list(b"a")), ev("int", "int8", canon(j % 100)), ev("key", "key", list(b"b")))] + [ev("nil", "nil")] + [ev("objE", "objE")] * d)
+        out.append([ev("arrS", "arrS", (), -1, "any") if j % 2 else ev("arrS", "arrS", (), 1, "any") for j in range(d)] + [ev("str", "str", [120])] + [ev("arrE", "arrE")] * d)
     return out
 
 
